@@ -31,6 +31,7 @@ def run(chk, repo):
     chk.rule("C19-T1", "the file handle of a load is confined to the with-block and to read_chunk", 2)
     chk.rule("C19-T2", "nothing reachable from a load writes shared state; Array attributes are assigned only during construction", 2)
     chk.rule("C19-T3", "locks stored in the tree are picklable; no nested acquisition", 2)
+    chk.rule("C19-T5", "every explicit lock.acquire() is released on all exits (try/finally); `with lock:` is the accepted idiom", 0)
     chk.rule("C19-T4", "no unpicklable member (lambda, handle, thread lock) is stored in Array / LazilyIndexedWrapper", 2)
     mod = repo.module("ceos_alos2.array")
     gi = mod.func("Array.__getitem__")
@@ -159,6 +160,45 @@ def _t34(chk, repo, g):
                             nested.append(f"{fi.qualname}: nested `with` on locks")
     chk.require(not nested, "C19-T3", "load path", "lock acquisitions do not nest (lock-order graph has no edge, hence no cycle)",
                 f"nested lock acquisition: {nested[:2]}", key="nested-locks")
+    # T5: pairing - an explicit acquire() is released on every exit (try/finally), also inside generator-based context managers,
+    # where an exception raised in the with-block surfaces at the `yield`
+    n_acq = 0
+    for fi in repo.all_funcs():
+        if fi.module.name.endswith(".testing"):
+            continue
+        for c in calls_in(fi):
+            if not (isinstance(c.func, ast.Attribute) and c.func.attr == "acquire"):
+                continue
+            n_acq += 1
+            recv = norm(c.func.value)
+            st = c
+            while not isinstance(st, ast.stmt):
+                st = st._parent
+            block = None
+            par = getattr(st, "_parent", None)
+            for field in ("body", "orelse", "finalbody"):
+                b = getattr(par, field, None)
+                if isinstance(b, list) and st in b:
+                    block = b
+            ok = False
+            why = "no try/finally follows the acquire"
+            if block is not None:
+                rest = block[block.index(st) + 1:]
+                if rest and isinstance(rest[0], ast.Try) and any(isinstance(x, ast.Call) and isinstance(x.func, ast.Attribute) and x.func.attr == "release" and norm(x.func.value) == recv
+                                                                  for fs in rest[0].finalbody for x in ast.walk(fs)):
+                    ok = True
+                else:
+                    rel = [x for s2 in rest for x in ast.walk(s2) if isinstance(x, ast.Call) and isinstance(x.func, ast.Attribute) and x.func.attr == "release" and norm(x.func.value) == recv]
+                    between = [x for s2 in rest for x in ast.walk(s2) if isinstance(x, (ast.Call, ast.Yield, ast.YieldFrom, ast.Subscript, ast.Raise)) and (not rel or (x.lineno, x.col_offset) < (rel[0].lineno, rel[0].col_offset))]
+                    if rel and not between:
+                        ok = True  # nothing that can raise lies between acquire and release
+                    elif rel:
+                        why = f"`{short(between[0], 40)}` lies between {recv}.acquire() and {recv}.release() without try/finally: an exception there leaves the lock held"
+                    else:
+                        why = f"{recv}.release() is not in this block"
+            chk.require(ok, "C19-T5", f"{fi.module.relpath}:{fi.qualname}", f"{recv}.acquire() is paired with a release in `finally`",
+                        f"{why}; the lock is shared by every copy of the variable, so each later load of that image blocks forever", key=f"{fi.key}:acquire-release")
+    chk.count("explicit_acquires", n_acq)
     # T4: constructor arguments of the wrapper and of Array
     tv = xr.func("to_variable")
     flow = Flow(tv)
